@@ -195,7 +195,10 @@ LEVEL_TEXT = {
  "C13": "Logic proved, runtime observed. Theorems: State.Close releases all three slots whatever they hold; every request keeps at most one handle per slot and a replaced handle is released (slot bookkeeping of OPEN_DIR/OPEN_FILE/CREATE/CLOSEFILE); the judgement predicate accepts the fault-free run, rejects altered bytes and hangs, and a closed connection admits nothing after it; enumeration always terminates (structural recursion over the remaining names). "
         "Tie: single-fault enumeration over every filesystem operation of 6 scenarios judged by that predicate; ledger after every session and after abrupt closes.",
  "C14": "Kernel-checked theorems over the Lean model of ParseIPRange/Contains: byte-wise comparison is numeric comparison, membership is exactly "
-        "'between the bounds' for every 16-byte address, IPv4 and IPv4-mapped forms are treated alike, reversed / mixed-family / malformed bounds are rejected. "
+        "'between the bounds' for every 16-byte address; block_denotes: for every 4- or 16-byte address and every prefix length the computed bounds are exactly the documented block "
+        "(aligned 2^h addresses, host bits of the base ignored, network and broadcast address removed iff h >= 2) - proved from the byte-level mask arithmetic (AND with the prefix mask floors, OR with its complement fills, last-bit tweaks), "
+        "the four single-byte facts by kernel evaluation over all 256 values; a contiguous netmask is the prefix mask of its length, so 'a/m.m.m.m' and 'a/ones' give the same block; what the parser returns for v4 CIDR, v4 mask and v6 CIDR; "
+        "IPv4 and IPv4-mapped forms are treated alike; reversed / mixed-family / malformed bounds, out-of-range prefixes, non-contiguous masks and other tails are rejected. "
         "The model (incl. Go's address and integer parsing) is tied to the code by a differential run over generated specifications and probe addresses, "
         "cross-checked against an independent net/netip+math/big oracle.",
 }
